@@ -485,3 +485,61 @@ pub fn replay(case: &Value, out: &mut Out) {
         _ => println!("re-run `./check.sh C15 quick` for binary-level cases"),
     }
 }
+
+/// Workload interpreted by Miri (`tools/miri.sh`): FEN parsing of mutated strings, move
+/// generation, push/pop, display, and a shallow search. No files, no subprocesses.
+pub fn miri_workload(shard: u64) -> u64 {
+    use std::sync::atomic::AtomicBool;
+    let bases = [
+        "rnbqkbnr/pppppppp/8/8/8/8/PPPPPPPP/RNBQKBNR w KQkq - 0 1",
+        "r3k2r/p1ppqpb1/bn2pnp1/3PN3/1p2P3/2N2Q1p/PPPBBPPP/R3K2R w KQkq - 0 1",
+        "8/2p5/3p4/KP5r/1R3p1k/8/4P1P1/8 w - - 0 1",
+        "rnbqkbnr/ppp1pppp/8/8/3pP3/8/PPPP1PPP/RNBQKBNR b KQkq e3 0 3",
+        "r3k2r/1P4P1/8/8/8/8/1p4p1/R3K2R w KQkq - 0 1",
+        "8/5k2/8/8/8/8/1K6/3R4 w - - 0 1",
+        "3Q4/1Q4Q1/4Q3/2Q4R/Q4Q2/3Q4/1Q4Rp/1K1BBNNk w - - 0 1",
+    ];
+    let mut rng = Rng::new(0x31F1, shard);
+    let mut ops = 0u64;
+    // FEN parsing of mutated strings
+    for i in 0..10 {
+        let base = bases[(shard as usize + i) % bases.len()];
+        let (text, _) = mutate_text(base, &mut rng);
+        if let Ok(mut g) = Game::new(&text) {
+            let n = eng::moves(&mut g, false).len();
+            ops += n as u64;
+        }
+        ops += 1;
+    }
+    // generation, push/pop, display
+    let base = bases[shard as usize % bases.len()];
+    if let Ok(mut g) = Game::new(base) {
+        for _ in 0..3 {
+            let ms = eng::moves(&mut g, true);
+            if ms.is_empty() {
+                break;
+            }
+            for m in ms.iter() {
+                g.push(*m);
+                let _ = g.hash();
+                g.pop(*m);
+                ops += 2;
+            }
+            let m = ms[rng.below(ms.len())];
+            g.push_history(m);
+            let _ = g.fen();
+            let _ = format!("{}", g);
+            ops += 3;
+        }
+        // shallow search on a small table
+        if shard % 4 == 0 {
+            let small = Game::new("8/5k2/8/8/8/8/1K6/3R4 w - - 0 1").unwrap();
+            let mut table: crate::search::TranspositionTable =
+                std::collections::HashMap::with_capacity_and_hasher(64, nohash_hasher::BuildNoHashHasher::default());
+            let flag = AtomicBool::new(true);
+            let r = crate::search::get_best_move_until_stop(&small, &mut table, &flag, Some(2));
+            ops += 1 + r.is_some() as u64 + hk::POLLS.load(SeqCst);
+        }
+    }
+    ops
+}
